@@ -337,7 +337,7 @@ pub fn run(ctx: &Ctx) -> i32 {
     ));
     let bad = refusals(&all_shapes(4, 3));
     st.merge(ctx.run_indexed("refused-constructions", bad.len() as u64, None, |i| Some(Case16::Refuse(bad[i as usize].clone()))));
-    let (max_size, total) = t.pick((7usize, 1500u64), (10, 40000));
+    let (max_size, total) = t.pick((7usize, 12000u64), (10, 200000));
     let strat = move || (prop::collection::vec(1..=max_size, 1..=4), any::<u64>(), any::<bool>()).prop_map(|(d, s, e)| (d, s, e)).boxed();
     st.merge(ctx.run_prop("random-shapes-and-values", total, strat, |(d, s, e)| {
         if numel(d) > 1500 {
